@@ -346,15 +346,30 @@ class Bounds:
             q = ('bin', 'Div', N, D)
             rems = (('bin', 'Rem', N, D), ('bin', 'Sub', N, ('bin', 'Mul', q, D)))
             r0 = self.ctx.run0(name)
-            tests = [d for (d, tg) in r0.switches.values() if d[0] == 'bin' and d[1] in ('Gt', 'Ne', 'Eq', 'Lt', 'Ge', 'Le') and
-                     ((d[2] in rems and d[3] == ('const', 0)) or (d[3] in rems and d[2] == ('const', 0)))]
+            qd = (('bin', 'Mul', q, D), ('bin', 'Mul', D, q))
+            ZERO = ('const', 0)
+
+            def polarity(d):
+                """+1: the test is true exactly when the remainder is positive; -1: exactly when it is zero; None: not a remainder test.
+                Spellings: rem > 0, rem != 0, 0 < rem, n > q*d, n != q*d, q*d < n  (positive);  rem == 0, rem <= 0, n == q*d, n <= q*d, q*d >= n (zero)"""
+                if d[0] != 'bin':
+                    return None
+                op, a, c = d[1], d[2], d[3]
+                if a in rems and c == ZERO:
+                    return {'Gt': 1, 'Ne': 1, 'Eq': -1, 'Le': -1}.get(op)
+                if c in rems and a == ZERO:
+                    return {'Lt': 1, 'Ne': 1, 'Eq': -1, 'Ge': -1}.get(op)
+                if a == N and c in qd:
+                    return {'Gt': 1, 'Ne': 1, 'Eq': -1, 'Le': -1}.get(op)
+                if c == N and a in qd:
+                    return {'Lt': 1, 'Ne': 1, 'Eq': -1, 'Ge': -1}.get(op)
+                return None
+            tests = [d for (d, tg) in r0.switches.values() if polarity(d) is not None]
             if len(tests) == 1:
                 tst = tests[0]
                 res_ = {}
                 for positive in (True, False):
-                    truth = positive if tst[1] in ('Gt', 'Ne') else (not positive)
-                    if tst[1] in ('Lt',):       # 0 < rem
-                        truth = positive
+                    truth = positive if polarity(tst) == 1 else (not positive)
                     rr = self.ctx.opa0.run(name, seeds={'atoms': (lambda d, tst=tst, truth=truth: truth if d == tst else None), 'key': ('ceil', name, positive)})
                     res_[positive] = rr.ret
                 plus1 = (('bin', 'Add', q, ('const', 1)), ('bin', 'Add', ('const', 1), q))
